@@ -357,9 +357,13 @@ func (g *gen) discharge(base string, opt dischargeOpts) []result {
 			if o.cover {
 				want = "sat"
 			}
-			st, out := runSolver(solvers[0], file, opt.timeout)
+			tmo := opt.timeout
+			if o.cover && tmo > 5 {
+				tmo = 5 // reachability checks are informational unless they come back unsat (vacuous)
+			}
+			st, out := runSolver(solvers[0], file, tmo)
 			r.solver = solvers[0].name
-			if st != want && st != "sat" && st != "unsat" {
+			if st != want && st != "sat" && st != "unsat" && !o.cover {
 				// fall back to the other solvers (cvc5 cannot parse z3 lambda arrays)
 				type ans struct{ st, out, name string }
 				ch := make(chan ans, 3)
